@@ -240,12 +240,13 @@ class Dkg:
         self.sp1, self.pkg1, self.sp2, self.r2, self.kp, self.pkp = {}, {}, {}, {}, {}, {}
         self.ok = True
         self.tag = tag
+        self.tapes = {}      # identifier -> scripted random tape (hex) for part1
 
     def part1(self, same_tape=()):
         """same_tape: identifiers that all use one and the same random tape (cloned machine / bad RNG)"""
         shared = self.sess.tape(128 * self.t + 512)
         for i in self.ids:
-            tp = shared if i in same_tape else self.sess.tape(128 * self.t + 512)
+            tp = self.tapes.get(i) or (shared if i in same_tape else self.sess.tape(128 * self.t + 512))
             r = self.sess.call("%s1 %s id=%s n=%d t=%d tape=%s" % (self.p, self.suite, i, self.n, self.t, tp), self.gate, self.p + "1")
             if not r.ok:
                 self.ok = False
@@ -337,3 +338,12 @@ def evalpoly_stream(sess, suite, count=12):
         sess.oracle(r.ok and fld.dec(r["v"]) == want, "polynomial evaluation is wrong on coefficients %s" % ["0" if c == 0 else "x" for c in cs], [req])
         sess.case("evalpoly|" + req)
     sess.count("evalpoly:" + suite)
+
+
+DRAW_LEN = {"toy31": 8, "toy16": 8, "ed25519": 64, "ristretto255": 64, "ed448": 114, "p256": 32, "secp256k1": 32, "secp256k1-tr": 32}
+
+
+def scalar_draw(suite, v):
+    """the bytes of the random source that Field::random turns into the scalar v (0 <= v < q)"""
+    n = DRAW_LEN[suite]
+    return v.to_bytes(n, "big" if suite in ("p256", "secp256k1", "secp256k1-tr") else "little")
